@@ -105,8 +105,25 @@ fn count_disconnect_requests(mut events: EventReader<DisconnectRequest>, mut see
     }
 }
 
+#[derive(Resource, Default)]
+struct UnrelatedRes(#[allow(dead_code)] u64);
+#[derive(Component)]
+struct UnrelatedComp;
+#[derive(Event)]
+struct UnrelatedEvent;
+
+/// Apps are built in pairs (server, client).  Every second app also contains things that have nothing to do
+/// with the protocol (another plugin's resource, component and event), registered BEFORE the protocol
+/// registrations: "the same sequence of replication-rule and remote-event registrations" must hash alike
+/// whatever else the two builds contain (world-local ids such as `ComponentId` differ between them).
+static APPS_BUILT: std::sync::atomic::AtomicUsize = std::sync::atomic::AtomicUsize::new(0);
+
 fn build_app(seq: &[Reg]) -> App {
     let mut app = App::new();
+    if APPS_BUILT.fetch_add(1, std::sync::atomic::Ordering::Relaxed) % 2 == 1 {
+        app.init_resource::<UnrelatedRes>().add_event::<UnrelatedEvent>();
+        app.world_mut().register_component::<UnrelatedComp>();
+    }
     app.add_plugins((
         MinimalPlugins,
         RepliconPlugins.set(ServerPlugin {
